@@ -158,8 +158,9 @@ class C07(Prop):
             "newlines) satisfying the precondition x histories of <= 60 operations (Register, Inc/Abs incl. values wrapping 2^64, Set/Inc/Dec of "
             "quarter-exact doubles, raw 64-bit doubles set on raw gauges, Record of samples on and around the bucket bounds, Describe of the same "
             "name several times and under several kinds and unsanitised spellings, run_upkeep and render interleaved and repeated; every history ends "
-            "with two renders). A case is non-trivial if at least one rendering has a sample; distinct = distinct (case, output). Stress engine: "
-            "4 recording threads x 3 histogram keys + counters || one render/run_upkeep loop, histogram and summary mode, final counts judged.")
+            "with two renders). A case is non-trivial if at least one rendering has a sample; distinct = distinct (case, output). Stress engines: "
+            "(1) 4 recording threads x 3 histogram keys + counters || one render/run_upkeep loop, histogram and summary mode, final counts judged; "
+            "(2) visibility: rounds of N completed records, then run_upkeep() || 1-2 render() released by a barrier, every concurrent rendering must show the full cumulative _count/_sum.")
     design_ref = "DESIGN.md 4 C07"
     technique = ("Coq proof: refinement of a state-machine model of the recorder (handles, pending bags, persistent distributions keyed by rendered "
                  "name+labels, first-wins descriptions) to a declarative per-key specification over the history, for all histories and configurations; "
@@ -183,7 +184,8 @@ class C07(Prop):
                   "entry rather than by walking the map; that every entry of the map belongs to a registered histogram key, and entries are pairwise different, is proved "
                   "(C07_distributions_belong_to_registered_keys), the permutation between the two walks is not stated as a theorem.")
     assumptions = ["doubles in generated histories are multiples of 1/4 below 2^50 in magnitude (f64 addition exact); raw gauge bit patterns are arbitrary non-NaN or the canonical NaN",
-                   "fewer than 2^64 samples; idle timeout disabled; sequential histories (concurrency: stress engine only)",
+                   "fewer than 2^64 samples; idle timeout disabled; sequential histories (concurrency: stress engines only)",
+                   "Render and Upkeep are single atomic steps of the model: taking the samples out of a bucket and folding them into its distribution entry is atomic with respect to other renders/upkeeps because drain_histograms_to_distributions does both under the distributions write lock (recorder.rs); this code fact is not proved, it is tested by the visibility stress engine",
                    "HashMap iteration order is unspecified: renderings are compared as multisets of sample records"]
     trusted_extra = ["the driver's strict exposition-text reader (harness/hprom/src/bin/c07.rs parse_render) and Rust's str::parse::<f64>",
                      "python decoding of the driver's output and of f64 bit patterns (struct)"]
@@ -458,6 +460,24 @@ class C07(Prop):
             else:
                 viol.append(("stress", "a histogram _count is smaller than the number of samples recorded under the key after all recording threads joined (samples lost under concurrent render()/run_upkeep())",
                              dict(stress=shortfalls[0][0], output=shortfalls[0][1])))
+        # second engine: visibility of completed records to renders concurrent with run_upkeep()/render().
+        # No recorder runs during the concurrent phase, so C05's late-claim class excuses nothing here.
+        vper, vrounds = (60000, 24) if quick else (100000, 60)
+        vlines = ["V 2 %d %d 1 2" % (vper, vrounds), "V 2 %d %d 0 2" % (vper, vrounds), "V 1 %d %d 1 1" % (vper, vrounds), "V 1 %d %d 0 1" % (vper, vrounds)]
+        rc, outs, err = run_impl(ctx["binpath"], vlines, timeout=900)
+        cov.update(visibility_rounds=0, visibility_concurrent_renders=0, visibility_short_renders=0)
+        for line, out in zip(vlines, outs + [""] * len(vlines)):
+            if rc != 0 or not out.startswith("rounds="):
+                viol.append(("visibility", "the visibility stress driver failed or panicked", dict(stress=line, output=out, stderr=err[-1000:])))
+                continue
+            f = dict(kv.split("=", 1) for kv in out.split())
+            cov["visibility_rounds"] += int(f["rounds"])
+            cov["visibility_concurrent_renders"] += int(f["renders"])
+            cov["visibility_short_renders"] += int(f["short"])
+            if int(f["short"]) or int(f["over"]) or int(f["settled_bad"]):
+                viol.append(("visibility", "a render() running concurrently with run_upkeep()/render() on other threads (no recorder running) did not report exactly the samples whose "
+                             "record() had returned before it started: _count/_sum short on %s rendering(s), over on %s, settled rendering wrong %s time(s); first = round:key:recorded:_count:_sum bits %s"
+                             % (f["short"], f["over"], f["settled_bad"], f["first"]), dict(stress=line, output=out)))
         ctx["coverage"].update(cov)
         return viol
 
